@@ -85,4 +85,38 @@ example : (run g0 (some { wavWPath with mode := .r, seekable := false }) 0x1042 
           (run g0 (some { wavWPath with mode := .r }) 0x1042 16 (some ⟨16, fun _ => 0xA5⟩)).writes = [(0, 16)] ∧
           (run g0 (some { wavWPath with mode := .r }) 0x1042 16 none).ret = .exact eBadParam := by decide
 
+/-- SFC_CALC_SIGNAL_MAX / SFC_CALC_NORM_SIGNAL_MAX (since the repair of KF-C09-CALC-SIGNAL-MAX-RET0: `return psf->error` behind
+    psf_calc_signal_max): the size guard comes first (NULL or a datasize other than sizeof (double): SFE_BAD_COMMAND_PARAM, nothing
+    touched); behind it a non-seekable handle (pipe, GSM) and a handle that cannot read (write-only) are answered with the error
+    number — the 0.0 psf_calc_signal_max returns is stored in the block —, otherwise the double is written and 0 returned.  NULL is
+    never dereferenced and the block is never read. -/
+theorem calc_signal_max_route_guards (g : G) (h : H) (cmd : Int) (hc : cmd = 0x1040 ∨ cmd = 0x1041) (size : Nat) (data : Option Mem) :
+    let r := run g (some h) cmd size data
+    r.derefNull = false ∧ r.reads = [] ∧ r.h' = some h ∧
+    ((data = none ∨ size ≠ szDouble) → r.writes = [] ∧ r.ret = .exact eBadParam) ∧
+    (data.isSome = true → size = szDouble → h.seekable = false → r.writes = [(0, size)] ∧ r.ret = .exact eNotSeekable ∧ r.err = some eNotSeekable) ∧
+    (data.isSome = true → size = szDouble → h.seekable = true → canRead h = false →
+      r.writes = [(0, size)] ∧ r.ret = .exact eUnimplemented ∧ r.err = some eUnimplemented) ∧
+    (data.isSome = true → size = szDouble → h.seekable = true → canRead h = true → r.writes = [(0, size)] ∧ r.ret = .exact 0) := by
+  have hp : preHandle g (some h) cmd size data = none := by rcases hc with rfl | rfl <;> simp [preHandle]
+  have hcl : classify cmd = Cls.k1040 := by rcases hc with rfl | rfl <;> decide
+  simp only [run, hp, withHandle, hcl, guardEq]
+  cases data with
+  | none => simp
+  | some m =>
+    by_cases hs : size = szDouble
+    · by_cases hk : h.seekable = true
+      · by_cases hr : canRead h = true
+        · simp [calcSignalMax, hs, hk, hr]
+        · simp [calcSignalMax, hs, hk, hr]
+      · simp [calcSignalMax, hs, hk]
+    · simp [hs]
+
+/-- non-vacuity: a write-only handle on a path, a read handle on a pipe, the same file readable; the rule before the repair -/
+example : (run g0 (some wavWPath) 0x1040 8 (some ⟨8, fun _ => 0xA5⟩)).ret = .exact eUnimplemented ∧
+          (run g0 (some { wavWPath with mode := .r, seekable := false }) 0x1041 8 (some ⟨8, fun _ => 0xA5⟩)).ret = .exact eNotSeekable ∧
+          (run g0 (some { wavWPath with mode := .r }) 0x1040 8 (some ⟨8, fun _ => 0xA5⟩)).ret = .exact 0 ∧
+          (run g0 (some { wavWPath with mode := .r }) 0x1040 8 none).ret = .exact eBadParam ∧
+          (calcSignalMax true wavWPath).ret = .exact 0 ∧ (calcSignalMax true wavWPath).err = some eUnimplemented := by decide
+
 end Sf.C17Routes
